@@ -736,8 +736,10 @@ func (env *Zlisp) LoadExpressions(xs []Sexp) error {
 	if !env.ReachedEnd() {
 		gen.AddInstruction(PopInstr(0))
 	}
+	macrosBefore := env.macrosSnapshot()
 	err := gen.GenerateBegin(expressions)
 	if err != nil {
+		env.macrosRestore(macrosBefore)
 		return err
 	}
 
@@ -819,6 +821,30 @@ func (env *Zlisp) AddGlobal(name string, obj Sexp) {
 func (env *Zlisp) AddMacro(name string, function ZlispUserFunction) {
 	sym := env.MakeSymbol(name)
 	env.macros[sym.number] = MakeUserFunction(name, function)
+}
+
+// macrosSnapshot and macrosRestore bracket the compilation of a text.
+// defmac takes effect while the text is compiled (the forms after it may
+// use the macro); when a later form does not compile, nothing of the
+// text runs, and the macros it defined, or redefined, go with it.
+func (env *Zlisp) macrosSnapshot() map[int]*SexpFunction {
+	saved := make(map[int]*SexpFunction, len(env.macros))
+	for num, fun := range env.macros {
+		saved[num] = fun
+	}
+	return saved
+}
+
+func (env *Zlisp) macrosRestore(saved map[int]*SexpFunction) {
+	// in place: duplicates of env share the table
+	for num := range env.macros {
+		if _, had := saved[num]; !had {
+			delete(env.macros, num)
+		}
+	}
+	for num, fun := range saved {
+		env.macros[num] = fun
+	}
 }
 
 func (env *Zlisp) HasMacro(sym *SexpSymbol) bool {
